@@ -5,5 +5,5 @@ b="${1:-600}"; s="${2:-7}"
 export VERIF_EVIDENCE_DIR=/dev/shm/soak-ev VERIF_OUT_DIR="$PWD/out-soak" VERIF_BUDGET_S=$b VERIF_SEED=$s
 for c in $(ls props | grep -E '^c[0-9]+\.py$' | sed 's/\.py//' | tr a-z A-Z); do
   echo "== soak seed $s $c"
-  timeout $((b*3+600)) ./check $c thorough 2>&1 | grep -E "^(VIOLATION|  fingerprint|  detail|C[0-9]+ thorough|HARNESS-ERROR|KNOWN)" | cut -c1-420 | head -20
+  timeout $((b*3+600)) ./check $c thorough 2>&1 | grep -E "^(VIOLATION|  fingerprint|  detail|C[0-9]+ thorough|HARNESS-ERROR|KNOWN|NOTE)" | cut -c1-420 | head -20
 done
